@@ -1104,6 +1104,8 @@ _log_target_enable(struct qb_log_target *t)
 		rc = qb_log_syslog_open(t);
 	} else if (t->pos == QB_LOG_BLACKBOX) {
 		rc = qb_log_blackbox_open(t);
+	} else {
+		rc = qb_log_file_enable(t);
 	}
 	if (rc == 0) {
 		_log_target_state_set(t, QB_LOG_STATE_ENABLED);
